@@ -233,23 +233,37 @@ class SeqEngine(Engine):
 
 
 def replay_without_map(vals, kind):
+    """The obligations of the decode loop speak about an instruction that straddles `end`; plant one
+    (a terminal 3-byte JP, then a non-terminal 3-byte LD) at end-1 for the model's range and a few others."""
     import skoolkit.snactl as S
-    start = vals.get('start', 32768)
-    end = vals.get('end', start + 3)
-    snap = [0] * 65536
-    # NOP ... then a 3-byte JP whose last byte lies beyond `end`
-    if end - 1 >= start and end + 2 <= 65536:
-        snap[end - 1] = 0xC3
-        snap[end] = 0x00
-        snap[end + 1] = 0x80
-    cfg = _Cfg()
-    ctls = S._generate_ctls_without_code_map(snap, start, end, cfg, None)
-    diffs = []
-    if any(not start <= k <= end for k in ctls):
-        diffs.append(('key outside the requested range', sorted(ctls), (start, end)))
-    if ctls.get(end) != 'i' and end < 65536:
-        diffs.append(('no terminator at end', sorted(ctls.items())))
-    return {'case': {'start': start, 'end': end, 'bytes at end-1': [0xC3, 0, 0x80]}, 'diffs': diffs}
+    start0 = vals.get('start', 32768)
+    end0 = vals.get('end', start0 + 3)
+    cands = [(start0, end0), (32768, 32771), (16384, 16390), (65000, 65530), (0, 5)]
+    first = None
+    for start, end in cands:
+        if not (0 <= start < end <= 65536) or end + 2 > 65536:
+            continue
+        for seq in ([0xC3, 0x00, 0x80], [0x21, 0x00, 0x80], [0xC9], [0x18, 0x00]):
+            snap = [0] * 65536
+            at = end - 1 if len(seq) > 1 else end - 1
+            snap[at:at + len(seq)] = seq
+            cfg = _Cfg()
+            try:
+                ctls = S._generate_ctls_without_code_map(snap, start, end, cfg, None)
+            except Exception as ex:
+                return {'case': {'start': start, 'end': end, 'bytes at end-1': seq}, 'diffs': [('exception', repr(ex)[:200], 'none')]}
+            diffs = []
+            if any(not start <= k <= end for k in ctls):
+                diffs.append(('key outside the requested range', sorted(ctls), (start, end)))
+            if ctls.get(end) != 'i' and end < 65536:
+                diffs.append(('no terminator at end', sorted(ctls.items())))
+            if min(ctls) != start:
+                diffs.append(('first directive not at start', sorted(ctls)[:2], start))
+            case = {'start': start, 'end': end, 'bytes at end-1': seq}
+            if diffs:
+                return {'case': case, 'diffs': diffs}
+            first = first or case
+    return {'case': first, 'diffs': []}
 
 
 class _Cfg:
